@@ -3,7 +3,7 @@
 Contracts (contracts/py_wiring.py c13_*): count_data_dict classification per SNP, Spectrum._from_count_dict = sum of count * outer product of
 hypergeometric projections (polarized filter / fold), fragment_data_dict partition and chunk windows for every chunk size in a stated range,
 bootstraps_from_dd_chunks = sums of drawn fragment spectra, S/pi/Watterson/theta_L/Tajima_D closed forms, S() mask frame.
-The VCF / SNP-file parsers, subsampling and Fst stay with the bounded drivers (props/bounded_C13.py).
+Fst = Weir-Cockerham with exact rational coefficient arrays.  The VCF / SNP-file parsers and subsampling stay with the bounded drivers (props/bounded_C13.py).
 """
 from vf.helpers import bounded_tasks
 
@@ -25,7 +25,8 @@ def tasks(tier):
           W('bootstraps_from_chunks', 'c13_bootstraps_from_chunks'),
           W('S_frame', 'c13_S_frame'),
           W('statistics.n4', 'c13_statistics', n=4),
-          W('statistics.n7', 'c13_statistics', n=7)]
+          W('statistics.n7', 'c13_statistics', n=7),
+          W('fst.1_2', 'c13_fst', ns=[1, 2]), W('fst.2_2', 'c13_fst', ns=[2, 2]), W('fst.1_2_1', 'c13_fst', ns=[1, 2, 1])]
     if tier == 'thorough':
         ts += [W('statistics.n%d' % n, 'c13_statistics', n=n) for n in (3, 10, 16)]
     return ts + bounded_tasks('C13', tier)
